@@ -368,6 +368,29 @@ class Unit:
                 self.opaques_of(self.struct_field(t[1], f), acc, seen)
         return acc
 
+    def closed_type(self, t, seen=None):
+        """True iff the Lean type of `t` can never get type parameters: no opaque type anywhere in ALL declared fields
+        (not only the fields used so far: `opaques_of` goes by `used_fields`, which grows while the unit is translated,
+        so it cannot decide this at the place of a literal).  Conservative: anything unknown is not closed."""
+        seen = seen if seen is not None else set()
+        k = t[0]
+        if k in ("int", "bool", "str", "unit"): return True
+        if k in ("opt", "vec", "set", "uset"): return self.closed_type(t[1], seen)
+        if k == "tuple": return all(self.closed_type(x, seen) for x in t[1])
+        if k == "enum": return self.fi.enums.get(t[1]) is not None
+        if k == "struct":
+            if t[1] in seen: return True
+            seen.add(t[1])
+            for fn, ty in self.fi.structs.get(t[1], [(None, None)]):
+                if ty is None: return False
+                try:
+                    rt = self.resolve(ty, t[1])
+                except RsError:
+                    return False
+                if not self.closed_type(rt, seen): return False
+            return True
+        return False
+
     def lt(self, t, top=True):
         k = t[0]
         if k == "int": return "Nat" if t[1] in UMAX else "Int"
@@ -2209,7 +2232,7 @@ class FnTranslator:
             term, t = self.expr(fe, env, pre, ft)
             self.check_ty(t, ft, "field %s" % f)
             parts.append("%s := %s" % (lid(f), term))
-        if str(self.u.struct_src.get(name, "")).startswith("trusted view") and not self.u.opaques_of(("struct", name), []):
+        if str(self.u.struct_src.get(name, "")).startswith("trusted view") and self.u.closed_type(("struct", name)):
             # (b1617, round 9) a literal of a declared view may initialise a `let` (no expected type in Lean): ascribe it
             return "({ " + ", ".join(parts) + " } : " + name + ")", ("struct", name)
         return "{ " + ", ".join(parts) + " }", ("struct", name)
